@@ -157,9 +157,9 @@ Definition conn_rel (s1 : circuit * list label * dict label) (s2 : circuit * dic
 (* ---------------------------------------------------------------- connect_circuit *)
 Lemma gen_connect_circuit_eq c other tc oc right name ap :
   NoDup (dkeys (gates other)) ->
-  gen_connect_circuit (S (size other)) c other tc oc right name ap = connect_circuit c other tc oc right name ap.
+  gen_connect_circuit size_fuel c other tc oc right name ap = connect_circuit c other tc oc right name ap.
 Proof.
-  intros Hnd. unfold gen_connect_circuit, connect_circuit.
+  intros Hnd. unfold gen_connect_circuit, connect_circuit, size_fuel.
   apply bind_ext. intros [].
   rewrite !gen_check_gates_exist_eq.
   apply bind_congr; [reflexivity|]. intros [] Htc.
@@ -253,22 +253,22 @@ Qed.
 (* ---------------------------------------------------------------- the wrappers *)
 Lemma gen_connect_left_eq c other tc name ap :
   NoDup (dkeys (gates other)) ->
-  gen_connect_left (S (size other)) c other tc name ap = connect_left c other tc name ap.
+  gen_connect_left size_fuel c other tc name ap = connect_left c other tc name ap.
 Proof. intros H. apply gen_connect_circuit_eq, H. Qed.
 
 Lemma gen_connect_right_eq c other oc name ap :
   NoDup (dkeys (gates other)) ->
-  gen_connect_right (S (size other)) c other oc name ap = connect_right c other oc name ap.
+  gen_connect_right size_fuel c other oc name ap = connect_right c other oc name ap.
 Proof. intros H. apply gen_connect_circuit_eq, H. Qed.
 
 Lemma gen_connect_inputs_eq c other name ap :
   NoDup (dkeys (gates other)) ->
-  gen_connect_inputs (S (size other)) c other name ap = connect_inputs c other name ap.
+  gen_connect_inputs size_fuel c other name ap = connect_inputs c other name ap.
 Proof. intros H. apply gen_connect_circuit_eq, H. Qed.
 
 Lemma gen_extend_circuit_eq c other tc oc right name ap :
   NoDup (dkeys (gates other)) ->
-  gen_extend_circuit (S (size other)) c other tc oc right name ap = extend_circuit c other tc oc right name ap.
+  gen_extend_circuit size_fuel c other tc oc right name ap = extend_circuit c other tc oc right name ap.
 Proof.
   intros H. unfold gen_extend_circuit, extend_circuit.
   destruct tc as [tc|], oc as [oc|]; cbn [bind]; cbv zeta; apply gen_connect_circuit_eq, H.
@@ -276,5 +276,5 @@ Qed.
 
 Lemma gen_add_circuit_eq c other name ap :
   NoDup (dkeys (gates other)) ->
-  gen_add_circuit (S (size other)) c other name ap = add_circuit c other name ap.
+  gen_add_circuit size_fuel c other name ap = add_circuit c other name ap.
 Proof. intros H. apply gen_connect_circuit_eq, H. Qed.
